@@ -2,6 +2,7 @@ import EaselModel.Dist.MixGen
 import EaselModel.Dist.WeiThm
 import EaselModel.Dist.GumbelThm
 import EaselModel.Dist.BisectTotal
+import EaselModel.Dist.InvTotal
 /-! Round 6: "the cdf is non-decreasing FROM 0 TO 1" — the limits that were still missing: Weibull (`→ 1`; it is `0` at and
     below `μ`), GEV with either sign of `α` (`→ 0` at `−∞`, `→ 1` at `+∞`; on the bounded side the value is attained), the GEV
     mixture for every number of components (`→ 0`, `→ Σq`); and what the limits give for the GEV mixture's inverse: the
@@ -99,5 +100,50 @@ theorem mixgev_bisection_total {g : ESL_MIXGEV ℝ} (ok : MixgevOK g) {p : ℝ} 
   have hR : ∀ x, XR ≤ x → p ≤ mixgevCdf g x := fun x hx => hXR.le.trans (hmono hx)
   obtain ⟨r, hr, x1, x2, a, b, _, hab, _, hca, hcb, hrm, hw⟩ := BisectTotal.invcdfMix_total (cdf := mixgevCdf g) (p := p) (m := m) hL hR
   exact ⟨XL, XR, r, hL, hR, hr, a, b, hab, hrm, hca, hcb, hw⟩
+
+/-! ## the TRANSLATED `esl_mixgev_invcdf` on its TRANSLATED cdf, unconditionally -/
+
+theorem branch_atBot {μ l α : ℝ} (hl : 0 < l) (hα : α ≠ 0) : ∀ᶠ x in atBot, ¬ |l * (x - μ) * α| < 1e-12 := by
+  have h1 : Tendsto (fun x : ℝ => |l * (x - μ)| * |α|) atBot atTop :=
+    (tendsto_abs_atBot_atTop.comp (GumbelThm.lin_tendsto_atBot (μ := μ) hl)).atTop_mul_const (abs_pos.mpr hα)
+  filter_upwards [h1.eventually (eventually_ge_atTop 1)] with x hx
+  rw [abs_mul]; exact not_lt.mpr (le_trans (by norm_num) hx)
+
+theorem branch_atTop {μ l α : ℝ} (hl : 0 < l) (hα : α ≠ 0) : ∀ᶠ x in atTop, ¬ |l * (x - μ) * α| < 1e-12 := by
+  have h1 : Tendsto (fun x : ℝ => |l * (x - μ)| * |α|) atTop atTop :=
+    (tendsto_abs_atTop_atTop.comp (GumbelThm.lin_tendsto_atTop (μ := μ) hl)).atTop_mul_const (abs_pos.mpr hα)
+  filter_upwards [h1.eventually (eventually_ge_atTop 1)] with x hx
+  rw [abs_mul]; exact not_lt.mpr (le_trans (by norm_num) hx)
+
+/-- far enough out on either side every component is in its GEV branch, where the translated mixture cdf IS the textbook one -/
+theorem gevBranch_eventually {g : ESL_MIXGEV ℝ} (ok : MixgevOK g) :
+    (∀ᶠ x in atBot, GevBranch g x) ∧ (∀ᶠ x in atTop, GevBranch g x) := by
+  constructor
+  · have := (eventually_all_finset (range g.K)).mpr fun k hk =>
+      branch_atBot (μ := gm g k) (ok k (mem_range.mp hk)).2.1 (ok k (mem_range.mp hk)).2.2
+    filter_upwards [this] with x hx k hk using hx k (mem_range.mpr hk)
+  · have := (eventually_all_finset (range g.K)).mpr fun k hk =>
+      branch_atTop (μ := gm g k) (ok k (mem_range.mp hk)).2.1 (ok k (mem_range.mp hk)).2.2
+    filter_upwards [this] with x hx k hk using hx k (mem_range.mpr hk)
+
+/-- **`esl_mixgev_invcdf` is total** (TRANSLATED function on its TRANSLATED cdf), every `K`, every `p ∈ (0, Σq)`, no hypothesis
+    on the cdf: bracketing points exist (limits of the textbook mixture + the code IS the textbook mixture outside the
+    components' Gumbel slivers), the fuel bound is `fuelMix`, the value is the midpoint of a final bracket of the code's own cdf
+    obeying the C stop rule. -/
+theorem mixgev_invcdf_total_all {g : ESL_MIXGEV ℝ} (ok : MixgevOK g) {p : ℝ} (hp0 : 0 < p) (hp1 : p < mixgevQ g) :
+    ∃ XL XR r, (∀ x, x ≤ XL → esl_mixgev_cdf x g ≤ p) ∧ (∀ x, XR ≤ x → p ≤ esl_mixgev_cdf x g) ∧
+      (∀ fuel, BisectTotal.fuelMix (esl_vec_DMin g.mu g.K - XL) (XR - esl_vec_DMin g.mu g.K) ≤ fuel →
+        esl_mixgev_invcdf fuel p g = some r) ∧
+      ∃ a b, a ≤ b ∧ r = (a + b) / 2 ∧ esl_mixgev_cdf a g ≤ p ∧ p ≤ esl_mixgev_cdf b g ∧ b - a ≤ 1e-6 * ((|a| + |b|) + 1e-9) := by
+  obtain ⟨h0, h1⟩ := mixgevCdf_tendsto ok
+  obtain ⟨b0, b1⟩ := gevBranch_eventually ok
+  obtain ⟨XL, hXL⟩ := eventually_atBot.mp ((h0.eventually (gt_mem_nhds hp0)).and b0)
+  obtain ⟨XR, hXR⟩ := eventually_atTop.mp ((h1.eventually (lt_mem_nhds hp1)).and b1)
+  have hL : ∀ x, x ≤ XL → esl_mixgev_cdf x g ≤ p := fun x hx => by
+    rw [(mixgev_code_eq_textbook ok (hXL x hx).2).1]; exact (hXL x hx).1.le
+  have hR : ∀ x, XR ≤ x → p ≤ esl_mixgev_cdf x g := fun x hx => by
+    rw [(mixgev_code_eq_textbook ok (hXR x hx).2).1]; exact (hXR x hx).1.le
+  obtain ⟨r, hr, hfin⟩ := InvTotal.mixgev_invcdf_total g hL hR
+  exact ⟨XL, XR, r, hL, hR, hr, hfin⟩
 
 end EaselModel.Dist.Limits
